@@ -304,11 +304,17 @@ def gen_workchain_with_awaitables(rng):
     fut = 0
     for name, step in program['steps'].items():
         if step.get('ret') is None and rng.random() < 0.45 and fut < 3:
+            ref = {'fut': fut}
+            roll = rng.random()
+            if roll < 0.15:
+                ref.update(pre='exc', v=f'pre{fut}')  # already failed when it is handed over: the workchain ends EXCEPTED
+            elif roll < 0.25:
+                ref.update(pre='value', v=f'pre{fut}')  # already complete when it is handed over
             if rng.random() < 0.5:
-                step['effects'].append({'e': 'toctx', 'key': f'f{fut}', 'ref': {'fut': fut}})
+                step['effects'].append({'e': 'toctx', 'key': f'f{fut}', 'ref': ref})
             else:
                 # handed over by RETURNING ToContext (which the enclosing if_/while_ steppers have to pass on)
-                step['ret'] = {'t': 'tocontext', 'items': {f'f{fut}': {'fut': fut}}}
+                step['ret'] = {'t': 'tocontext', 'items': {f'f{fut}': ref}}
             fut += 1
     program['n_futures'] = fut
     return program
